@@ -775,6 +775,12 @@ int parse_instruction_msp430(AsmContext *asm_context, char *instr)
       switch (table_msp430[n].type)
       {
         case OP_NONE:
+          if (operand_count != 0)
+          {
+            print_error_opcount(asm_context, instr);
+            return -1;
+          }
+
           add_bin16(asm_context, table_msp430[n].opcode, IS_OPCODE);
           return 2;
         case OP_ONE_OPERAND:
